@@ -3,6 +3,8 @@ from core import Case
 from . import wiregen as W
 
 ID = "C07"
+# theorems of Props/Tables.lean over the tables TRANSLATED from /repo/src and libccp's headers on every run (DESIGN 11.7)
+TABLE_THEOREMS = ['src_msgTypes_eq', 'src_lengths_eq', 'msgtypes_shared_with_libccp']
 THEOREMS = [
     "Portus.C07.encode_is_libccp", "Portus.C07.libccp_create_decodes", "Portus.C07.algSpec_of_name",
     "Portus.C07.libccp_measure_decodes", "Portus.C07.libccp_ready_decodes",
